@@ -289,7 +289,12 @@ func reifyStruct(opts *options, orig reflect.Value, cfg *Config) Error {
 					if err != nil {
 						return err
 					}
-					vField.Set(v)
+					if vField.CanSet() {
+						vField.Set(v)
+					} else {
+						// the list is held by an interface: store the result there
+						fInfo.value.Set(v)
+					}
 
 				default:
 					return raiseInlineNeedsObject(cfg, fInfo.name, fInfo.value.Type())
@@ -500,6 +505,17 @@ func reifyMergeValue(
 			return reflect.Value{}, raiseValidation(val.Context(), val.meta(), "", err)
 		}
 		return old, nil
+	}
+
+	switch baseType.Kind() {
+	case reflect.Map, reflect.Struct, reflect.Array:
+		if !old.CanSet() {
+			// a value held by an interface or a map is not addressable: unpack
+			// into a copy, the caller stores the result in its place
+			tmp := reflect.New(old.Type()).Elem()
+			tmp.Set(old)
+			old, oldValue = tmp, tmp
+		}
 	}
 
 	switch baseType.Kind() {
